@@ -21,7 +21,7 @@ theorem DMon.client_flush0 (s0 : Nat) : ∀ a ∈ clientFlush s0 0, DMon.Kept a 
   all_goals (try (simp at hg; done))
   all_goals (repeat' split)
   all_goals (intro he hm)
-  all_goals (first | (cases hm; done) | (obtain ⟨k1, k2, k3, k4, k5, k6, k7, k8, k9, k10, k11, k12, k13⟩ := hU _ he hm))
+  all_goals (first | (cases hm; done) | (obtain ⟨k1, k2, k3, k4, k5, k6, k7, k8, k9, k10, k11, k12, k13, k14⟩ := hU _ he hm))
   all_goals (first | (obtain ⟨m1, m2, m3⟩ := h _ he hm))
   all_goals (
     have hn1 := nrd_pos k3
